@@ -22,12 +22,12 @@ import (
 
 // Scenario is one simulated run of the cache.
 type Scenario struct {
-	Keys    []string         `json:"keys"`              // 1-2 keys
-	Preset  map[string]string `json:"preset,omitempty"` // initial cache content (SetMap before the clients start)
-	Clients [][]string       `json:"clients"`           // per client: the keys it looks up, in order
-	Fetch   map[string][]bool `json:"fetch"`            // per key: outcome of the n-th fetch invocation (true = success); beyond the list: success
-	Vec     []int            `json:"vec"`               // schedule vector
-	Observer int             `json:"observer,omitempty"` // >0: an extra actor takes GetMap() at a scheduled instant and re-reads the returned map after this many further releases
+	Keys     []string          `json:"keys"`               // 1-2 keys
+	Preset   map[string]string `json:"preset,omitempty"`   // initial cache content (SetMap before the clients start)
+	Clients  [][]string        `json:"clients"`            // per client: the keys it looks up, in order
+	Fetch    map[string][]bool `json:"fetch"`              // per key: outcome of the n-th fetch invocation (true = success); beyond the list: success
+	Vec      []int             `json:"vec"`                // schedule vector
+	Observer int               `json:"observer,omitempty"` // >0: an extra actor takes GetMap() at a scheduled instant and re-reads the returned map after this many further releases
 }
 
 type C16b struct{}
